@@ -1779,6 +1779,53 @@ def check_c17(A: Analysis, col: Collector):
     status_source_rule(A, col, "C17.status")
 
 
+def evidence_is_set_by_submitter(A: Analysis, ev: ast.AST) -> bool:
+    """`<job>.<flag>`: the flag is initialised False in Job.__init__ and set True in both expanders right
+    after the worker call returned / the future completed (and nowhere in Job itself)."""
+    if not (isinstance(ev, ast.Attribute)):
+        return False
+    flag = ev.attr
+    job = A.cls("pydra.engine.job.Job")
+    init = job.find_method("__init__")
+    inits = [n for n in walk_own(init.node) if isinstance(n, ast.Assign) and any(isinstance(t, ast.Attribute) and t.attr == flag for t in n.targets)]
+    if not inits or not all(isinstance(n.value, ast.Constant) and n.value.value is False for n in inits):
+        return False
+    for m in job.methods.values():
+        if m is init:
+            continue
+        if any(isinstance(n, ast.Assign) and any(isinstance(t, ast.Attribute) and t.attr == flag for t in n.targets) for n in walk_own(m.node)):
+            return False  # the job sets it itself: not evidence from the submitter
+    sub = A.cls("pydra.engine.submitter.Submitter")
+    for name in ("expand_workflow", "expand_workflow_async"):
+        fn = sub.find_method(name)
+        sets = [n for n in walk_own(fn.node) if isinstance(n, ast.Assign) and any(isinstance(t, ast.Attribute) and t.attr == flag for t in n.targets) and isinstance(n.value, ast.Constant) and n.value.value is True]
+        if not sets:
+            return False
+        # never before the worker call of the same block: the statement preceding each set (same body) is the
+        # worker call, or the set is the first statement of the loop over completed futures
+        for st in sets:
+            par = getattr(st, "_parent", None)
+            body = None
+            for fld in ("body", "orelse", "finalbody"):
+                b = getattr(par, fld, None)
+                if isinstance(b, list) and st in b:
+                    body = b
+            if body is None:
+                return False
+            i = body.index(st)
+            prev_is_worker_call = i > 0 and any(isinstance(c, ast.Call) and isinstance(c.func, ast.Attribute) and c.func.attr in ("run", "submit") and (dotted(c.func.value) or "").endswith("worker") for c in ast.walk(body[i - 1]))
+            # the loop over the futures that fetch_finished reported as done
+            fetched = {e.id for a_ in walk_own(fn.node) if isinstance(a_, ast.Assign) and any(isinstance(c, ast.Call) and isinstance(c.func, ast.Attribute) and c.func.attr == "fetch_finished" for c in ast.walk(a_.value)) for t in a_.targets for e in (t.elts if isinstance(t, ast.Tuple) else [t]) if isinstance(e, ast.Name)}
+            in_completed_loop = isinstance(par, ast.For) and i == 0 and bool(shape_names(par.iter) & fetched)
+            if not (prev_is_worker_call or in_completed_loop):
+                return False
+    return True
+
+
+def shape_names(node: ast.AST) -> set[str]:
+    return {n.id for n in ast.walk(node) if isinstance(n, ast.Name)}
+
+
 def status_source_rule(A: Analysis, col: Collector, rule: str):
     """where the scheduler learns that a job has finished.
 
@@ -1795,7 +1842,31 @@ def status_source_rule(A: Analysis, col: Collector, rule: str):
     A.anchor("loop over self.queued in NodeExecution.update_status", loops)
     for lp in loops:
         # names bound from `<job>.done` (directly or in try/else)
-        done_vars = {t.id for n in ast.walk(lp) if isinstance(n, ast.Assign) and isinstance(n.value, ast.Attribute) and n.value.attr == "done" for t in n.targets if isinstance(t, ast.Name)}
+        # names bound from the cache lookup `<job>.done`; a binding `<evidence> and <job>.done`, where the
+        # evidence operand is set by the submitter when the worker has returned from the job, is guarded
+        done_vars, guarded_vars = set(), {}
+        for n in ast.walk(lp):
+            if isinstance(n, ast.Assign):
+                names = {t.id for t in n.targets if isinstance(t, ast.Name)}
+                if isinstance(n.value, ast.Attribute) and n.value.attr == "done":
+                    done_vars |= names
+                elif isinstance(n.value, ast.BoolOp) and isinstance(n.value.op, ast.And) and any(isinstance(v, ast.Attribute) and v.attr == "done" for v in n.value.values):
+                    ev = [v for v in n.value.values if not (isinstance(v, ast.Attribute) and v.attr in ("done", "errored"))]
+                    if ev and evidence_is_set_by_submitter(A, ev[0]):
+                        for nm in names:
+                            guarded_vars[nm] = norm(ev[0])
+                    else:
+                        done_vars |= names
+        # an exception flag set in the handler of the same lookup inherits the lookup's guard
+        for n in ast.walk(lp):
+            if isinstance(n, ast.Try) and any(isinstance(b, ast.Assign) and any(isinstance(t, ast.Name) and t.id in guarded_vars for t in b.targets) for b in n.body):
+                g = next(guarded_vars[t.id] for b in n.body if isinstance(b, ast.Assign) for t in b.targets if isinstance(t, ast.Name) and t.id in guarded_vars)
+                for h in n.handlers:
+                    for b in h.body:
+                        if isinstance(b, ast.Assign) and isinstance(b.value, ast.Constant) and b.value.value is True:
+                            for t in b.targets:
+                                if isinstance(t, ast.Name):
+                                    guarded_vars.setdefault(t.id, g)
         moves = []
         for n in ast.walk(lp):
             if isinstance(n, ast.If):
@@ -1807,6 +1878,18 @@ def status_source_rule(A: Analysis, col: Collector, rule: str):
         A.anchor("queued -> successful/errored moves in update_status", moves)
         for dest, test, asg in moves:
             operands = test.values if isinstance(test, ast.BoolOp) and isinstance(test.op, ast.And) else [test]
+            def _guarded(o):
+                if isinstance(o, ast.Name) and o.id in guarded_vars:
+                    return True
+                if isinstance(o, ast.BoolOp) and isinstance(o.op, ast.Or):
+                    # `job.errored or errored`: job.errored is a flag of the parent's own job object, which only
+                    # the guarded lookup and the failed-future handler set
+                    return all((isinstance(v, ast.Name) and v.id in guarded_vars) or (isinstance(v, ast.Attribute) and v.attr == "errored") for v in o.values) and any(isinstance(v, ast.Name) and v.id in guarded_vars for v in o.values)
+                return False
+
+            if any(_guarded(o) for o in operands):
+                col.ok(rule, f"queued/running -> {dest} is decided on `{norm(test, 60)}`, whose cache lookup is conjoined with `{next(iter(guarded_vars.values()))}` (set by the submitter once the worker has returned from the job)", A.loc(asg))
+                continue
             cache_only = all((isinstance(o, ast.Name) and o.id in done_vars) or (isinstance(o, ast.Attribute) and o.attr in ("done", "errored")) or (isinstance(o, ast.BoolOp) and isinstance(o.op, ast.Or) and all((isinstance(v, ast.Attribute) and v.attr in ("done", "errored")) or isinstance(v, ast.Name) for v in o.values)) for o in operands)
             if cache_only:
                 col.fail(rule, us.qualname, f"queued-job-{dest}-read-from-cache-without-run-evidence", f"a queued job is moved to `{dest}` on `{norm(test)}` alone, i.e. on what the cache holds for its checksum: under an asynchronous worker a result left by a previous run (rerun=True; an errored result that is being re-executed) is taken for the outcome of this run while the job is still waiting in the pool, so downstream nodes get stale values / the node is reported failed, whereas the sequential worker re-runs the job first -- the workflow's outputs depend on the worker", A.loc(asg))
